@@ -238,9 +238,10 @@ def header2(version, rng):
     return out
 
 
-def gen_epoch(rng, near_week_boundary):
-    """a GPS-scale record epoch (whole seconds), 1999-2035"""
-    week = rng.randint(1025, 2900)
+def gen_epoch(rng, near_week_boundary, system="G"):
+    """a GPS-scale record epoch (whole seconds), 1980-2035 (BeiDou: from its week 0 = GPS week 1356)"""
+    lo = 1357 if system == "C" else 1
+    week = rng.randint(lo, 2900) if rng.random() < 0.7 or system == "C" else rng.choice([1, 2, 51, 52, 53, 1042, 1043, rng.randint(1, 1050)])
     if near_week_boundary:
         sow = rng.choice([0, 16, 3600, 7184, WEEK - 16, WEEK - 3600, WEEK - 7200, WEEK - 1, 1])
     else:
@@ -258,7 +259,7 @@ def gen_file3(rng, quick):
         system = kind if kind != "M" else rng.choice("GECJI")
         if kind == "M" and rng.random() < 0.25:
             lines += render_glo_sbas(rng, rng.choice("RS"), rng.randint(1, 24), gen_epoch(rng, False))
-        rec = gen_record(rng, system, rng.randint(1, 36), gen_epoch(rng, near))
+        rec = gen_record(rng, system, rng.randint(1, 36), gen_epoch(rng, near, system))
         ls, exp = render_record3(rng, rec, style)
         rec["exp"] = exp
         recs.append(rec)
@@ -276,7 +277,7 @@ def gen_file2(rng, quick, parser):
     version = "2.12" if parser == "rinex212_nav" else rng.choice(["2.11", "2.10", "2"])
     recs, lines = [], header2(version, rng)
     for _ in range(n):
-        rec = gen_record(rng, system, rng.randint(1, 32), gen_epoch(rng, near))
+        rec = gen_record(rng, system, rng.randint(1, 32), gen_epoch(rng, near, system))
         ls, exp = render_record2(rng, rec, style)
         rec["exp"] = exp
         recs.append(rec)
@@ -409,7 +410,15 @@ def oracle(ctx, case, f, p, parser):
             return
         for general, q in r["exp"].items():
             name = expected_name(general, s)
-            if general in ("toe", "transmission_time", "gnss_week"):
+            if general == "gnss_week":
+                # the week column is the GPS week of toe (BeiDou weeks shifted by 1356)
+                want_week = r["week_print"] + (WEEK_OFF.get(s, 0) if f["sat_sys"] in ("M", "C") else 0)
+                if float(data["gnss_week"][i]) != float(want_week):
+                    ctx.violate(f"gnss_week:{'C' if s == 'C' else 'x'}", f"record {i} ({s}{r['prn']:02d}) gnss_week: expected GPS week {want_week}, "
+                                f"parser returned {data['gnss_week'][i]!r}", {**case, "record": i})
+                    return
+                continue
+            if general in ("toe", "transmission_time"):
                 continue
             if name is None:
                 continue
@@ -527,7 +536,7 @@ def run(ctx: Ctx):
     ctx.trusted += ["float(text) is compared with the correctly rounded double of the model's exact rational",
                     "midgard Time(gps_ws / datetime) constructors are taken as given (C02); instants compared to 1e-6 s",
                     "dateutil.parser.parse / strptime on the ISO text built by the parser are modelled as the civil date"]
-    ctx.assumptions += ["record epochs 1999-2035, whole seconds", "IODE integral for GPS/QZSS (the parser refuses CNAV)",
+    ctx.assumptions += ["record epochs 1980-2035, whole seconds", "IODE integral for GPS/QZSS (the parser refuses CNAV)",
                         "header: only version / file type / satellite system enter the model"]
     try:
         for fcase in sorted((common.VERIF / "corpus" / "C12").glob("*.json")):
